@@ -185,6 +185,7 @@ def run(ctx):
             ctx.violation(out["name"], kind, msg, {k: out[k] for k in ("name", "codes", "X", "seed", "bs", "candidates_mode", "candidates")}, what=f"{out['name']}: {kind.replace('_', ' ')} ({msg})")
     classifiers_and_streams(ctx)
     regression_sentinels(ctx)
+    multi_annotator(ctx)
     ctx.sample({"encodings": [e[0] for e in ENC]})
     ctx.extra["exhaustive"] = False
 
@@ -397,6 +398,65 @@ def classifiers_and_streams(ctx):
                 if o[1] != seqs[0][1]:
                     ctx.violation(sname, "encoding_dependent", f"{seqs[0][0]}: {seqs[0][1]}; {o[0]}: {o[1]}", {"strategy": sname, "seed": seed, "codes": codes},
                                   what=f"{sname}: decisions depend on the label encoding ({seqs[0][0]} vs {o[0]})")
+                    break
+
+
+def multi_annotator(ctx):
+    """Multi-annotator pool strategies under two numeric encodings of the label MATRIX (0/1 + NaN vs 10/20 + reserved number -1;
+    the multi-annotator input validation accepts numeric labels only): same (sample, annotator) pairs, same utilities."""
+    from skactiveml.classifier import ParzenWindowClassifier
+    from skactiveml.classifier.multiannotator import AnnotatorEnsembleClassifier
+    from skactiveml.pool import ProbabilisticAL, RandomSampling, UncertaintySampling
+    from skactiveml.pool.multiannotator import IntervalEstimationThreshold, SingleAnnotatorWrapper
+    rng = ctx.rng("c09multi")
+    encs = [("0,1+NaN", [0, 1], NAN), ("10,20+(-1)", [10, 20], -1.0), ("3,4+(-999)", [3, 4], -999.0)]
+
+    def pwc(classes, ml, s):
+        return ParzenWindowClassifier(classes=classes, missing_label=ml, random_state=s)
+    mks = [("SingleAnnotatorWrapper[UncertaintySampling]", lambda c, ml, s: SingleAnnotatorWrapper(UncertaintySampling(missing_label=ml, random_state=s), missing_label=ml, random_state=s),
+            lambda c, ml, s: {"clf": pwc(c, ml, s)}),
+           ("SingleAnnotatorWrapper[ProbabilisticAL]", lambda c, ml, s: SingleAnnotatorWrapper(ProbabilisticAL(missing_label=ml, random_state=s), missing_label=ml, random_state=s),
+            lambda c, ml, s: {"clf": pwc(c, ml, s)}),
+           ("SingleAnnotatorWrapper[RandomSampling]", lambda c, ml, s: SingleAnnotatorWrapper(RandomSampling(missing_label=ml, random_state=s), missing_label=ml, random_state=s),
+            lambda c, ml, s: {}),
+           ("IntervalEstimationThreshold", lambda c, ml, s: IntervalEstimationThreshold(missing_label=ml, random_state=s),
+            # (members are given without classes: the ensemble hands them its own)
+            lambda c, ml, s: {"clf": AnnotatorEnsembleClassifier(estimators=[(f"c{i}", ParzenWindowClassifier(missing_label=ml, random_state=s)) for i in range(2)],
+                                                                 classes=c, missing_label=ml, random_state=s)})]
+    for name, mk, kwf in mks:
+        for h in range(8 if ctx.is_quick else 60):
+            n = int(rng.integers(8, 14))
+            X = rng.normal(size=(n, 2)) + rng.integers(0, 2, size=(n, 1)) * 2.0
+            codes = rng.integers(0, 2, size=(n, 2))
+            miss = rng.random((n, 2)) < [0.5, 0.3, 0.8][h % 3]
+            miss[0], codes[0] = [False, False], [0, 1]
+            miss[1], codes[1] = [False, False], [1, 0]
+            seed = int(rng.integers(0, 100))
+            bs = int(rng.choice([1, 2, 3]))
+            outs = []
+            for ename, classes, ml in encs:
+                y = np.where(codes == 0, float(classes[0]), float(classes[1]))
+                y[miss] = ml
+                try:
+                    idx, ut = mk(classes, ml, seed).query(X=X.copy(), y=y.copy(), batch_size=bs, return_utilities=True, **kwf(classes, ml, seed))
+                    outs.append((ename, [tuple(int(v) for v in r) for r in np.asarray(idx)], np.asarray(ut, dtype=float)))
+                except Exception as e:
+                    outs.append((ename, "exc:" + err_class(e), repr(e)[:200]))
+            ctx.count("multi_annotator:" + name)
+            if miss.any():
+                ctx.nontriv(("multi", name, X.tobytes(), codes.tobytes(), miss.tobytes(), seed, bs))
+            base = outs[0]
+            for o in outs[1:]:
+                rc = {"strategy": name, "X": X.tolist(), "codes": codes.tolist(), "missing": miss.tolist(), "encodings": [base[0], o[0]], "batch_size": bs, "seed": seed}
+                if isinstance(base[1], str) or isinstance(o[1], str):
+                    if isinstance(base[1], str) != isinstance(o[1], str):
+                        ctx.violation(name, "encoding_rejected", f"{base[0]}: {base[1] if isinstance(base[1], str) else 'ok'}; {o[0]}: {o[1] if isinstance(o[1], str) else 'ok'} {o[2] if isinstance(o[1], str) else ''}", rc,
+                                      what=f"{name}: one label encoding works, the other raises")
+                    continue
+                same_ut = base[2].shape == o[2].shape and np.allclose(base[2], o[2], rtol=1e-9, atol=1e-12, equal_nan=True)
+                if not same_ut or base[1] != o[1]:
+                    ctx.violation(name, "encoding_dependent", f"{base[0]} -> {base[1]}; {o[0]} -> {o[1]}" + ("" if same_ut else " (utilities differ)"), rc,
+                                  what=f"{name}: selected (sample, annotator) pairs / utilities depend on the label encoding ({base[0]} vs {o[0]})")
                     break
 
 
